@@ -315,8 +315,68 @@ def run_case(params, known):
                 samples=samples, verdicts=counts, report_keys=['verdicts'])
 
 
+def run_admin_target(params, known):
+    '''The target is the payload of a status report the source node generates itself (the block
+    then has a parsed record attached): with a confidentiality association that matches, what
+    leaves the node must be ciphertext, and the report-to node holding the key must recover the
+    record the source would have sent without the association.'''
+    from .. import env as _env
+    _env.load_bp()
+    from bp.app.bpsec import SecAssociation, SecOperation
+    violations = []
+    count = 0
+    SNODE = 'dtn://snode/'
+
+    def source(with_bcb, flags):
+        w = BpWorld(dict(node_id=SNODE, rx_routes=[('^dtn://snode/.*', 'deliver')], tx_routes=[('.*', 'dtn://next/', None)]))
+        if with_bcb:
+            cose = w.cose()
+            cose.sym_key_store[KID] = sym_key(KEY, ['EncryptOp', 'DecryptOp'], 'A256GCM')
+            tmpl = SecOperation(sec_type='bcb', role='source', priv_key_id=KID, content_iv=[bytes(range(12))])
+            cose.sec_assoc.append(SecAssociation(src_pat=re.compile(re.escape(SNODE) + '.*'), dst_pat=re.compile('.*'),
+                                                 tgt_blk_types=[1], templates=[tmpl]))
+        pri = dict(flags=flags, crc_type=1, dest=SNODE + 'app', src='dtn://origin/', report_to=NODE + 'reports',
+                   ts=(700000000000, 5), lifetime=3600000)
+        w.receive(B.encode(dict(primary=pri, blocks=[dict(type=1, num=1, flags=0, crc_type=1, data=b'subject bundle')])))
+        w.quiesce()
+        return [o for o in w.sent() if B.decode(o)['primary']['flags'] & B.FLAG_ADMIN], w
+    for flags in (B.FLAG_REQ_RECEPTION, B.FLAG_REQ_DELIVERY, B.FLAG_REQ_RECEPTION | B.FLAG_REQ_DELIVERY | B.FLAG_STATUS_TIME):
+        count += 1
+        case = dict(request_flags=flags)
+        (plain_reports, _w) = source(False, flags)
+        (enc_reports, w) = source(True, flags)
+        found = None
+        if len(plain_reports) != 1 or len(enc_reports) != 1:
+            found = ('source-did-not-emit-one-report', 'without / with association: %d / %d reports' % (len(plain_reports), len(enc_reports)))
+        else:
+            record = B.payload(B.decode(plain_reports[0]))
+            dec = B.decode(enc_reports[0])
+            if not any(b['type'] == B.T_BCB for b in dec['blocks']):
+                found = ('no-confidentiality-block-added', repr([b['type'] for b in dec['blocks']]))
+            elif B.payload(dec) == record or record in enc_reports[0]:
+                found = ('plaintext-on-the-wire', 'the status report leaves the node in clear under a confidentiality block: %s' % B.payload(dec).hex())
+            else:
+                for accept in (True, False):
+                    (rw, delivered, reasons) = receive(enc_reports[0], 'right', accept)
+                    if not delivered:
+                        found = ('receiver-with-key-does-not-deliver', 'accept=%s reasons %r errors %r' % (accept, reasons, rw.api_errors[:1]))
+                    elif accept:
+                        got = [bytes.fromhex(b[2]) for b in delivered[0]['blocks'] if b[0] == 1]
+                        if got != [record]:
+                            found = ('recovered-plaintext-differs', '%r vs %r' % (got, record))
+        if w.escaped and not found:
+            found = ('exception-escaped-idle-callback', '%s: %s' % (w.escaped[-1][0], w.escaped[-1][2]))
+        if found:
+            v = Violation(PROP, 'confidentiality', found[0], dict(target='administrative-record'), '%r: %s' % (case, found[1])).as_dict()
+            v['case'] = dict(kind='admin-target', length=0, alteration='none', **case)
+            violations.append(v)
+    return dict(name=params['name'], evaluations=count, nontrivial_keys=['admin-target:%d' % i for i in range(count)],
+                violations=violations[:3], known=[], samples=[], verdicts={}, report_keys=['verdicts'])
+
+
 def scenarios(tier):
     out = []
+    out.append(dict(name='admin-record-target', kind='enum', runner='run_admin_target', params=dict(name='admin-record-target'), weight=5))
     for kind in ('enc0', 'enc-kw'):
         for length in LENGTHS:
             for with_ext in (False, True, 'rev'):
@@ -332,6 +392,7 @@ def scenarios(tier):
 
 ASSUMPTIONS = [
     'trusted base: pycose and cryptography (AES-GCM) primitives',
+    'one scenario whose target is the payload of a status report generated by the source node itself (a block with parsed content attached)',
     'plaintext lengths 0,1,15,16,17,255,256; the empty plaintext has no "is ciphertext" requirement',
     'COSE_Encrypt with a wrapped key needs the repository\'s pinned pycose fork; where the installed pycose cannot produce it the case is counted as not producible',
     'bit-flip enumeration on lengths 1,16,17 in the quick tier (all lengths in the thorough tier)',
